@@ -101,9 +101,16 @@ package exec
 
 // ---- local executor (C14 limiter pairing, C20 scope reset, C12 stored-iff-OK, C06 classification) ----
 
-//@ extern func exec.(*localExecutor).depReaders (ctx, task) (in, err)
-//@   may_panic
+// depReaders runs the dependencies' combiner (user code) before the task itself: no panic of it may escape (C06); a
+// recovered panic is a Fatal error and no readers are returned.
+//@ func exec.(*localExecutor).depReaders (ctx, task) (in, err)
+//@   requires l != nil && task != nil && defaultChunksize != nil
+//@   flag recover_safety
+//@   flag trust_nil_safety
+//@   flag abstract_calls exec.(*multiReader).Read, frame.Make, frame.Frame.Slice, exec.(*localExecutor).Reader
+//@   ensures  panic-becomes-fatal-error: implies(panicked, in == nil && err != nil && isFatal(err))
 //@   modifies unknown
+//@   loop 2 invariant 0 <= j
 //@   preserves Limiter.held, Limiter.nacq, Limiter.lastAcq, localExecutor.limiter, localExecutor.sess, localExecutor.buffers, Session.p, Task.Pragma, nBufferOutput, lastBufferErr, Task.NumPartition, Task.Type, defaultChunksize, cells(int)
 
 // bufferOutput is under contract (C05/C06); callers use its contract:
